@@ -444,4 +444,17 @@ inductive AckCond where
 		"IBCMiddleware.OnAcknowledgementPacket: its steps in order, each with how its error is treated")
 	strs("timeoutMiddlewareSteps", c.c19Steps(c.findFunc("x/ibc/middleware", "IBCMiddleware", "OnTimeoutPacket"), "OnTimeoutPacket"),
 		"IBCMiddleware.OnTimeoutPacket: its steps in order")
+	// the same lists as (step, treatment) pairs: the model FOLDS over them (`runMw`)
+	pairs := func(name string, v []string, doc string) {
+		var xs []string
+		for _, st := range v {
+			k, t, _ := strings.Cut(st, ":")
+			xs = append(xs, "("+leanStr(k)+", "+leanStr(t)+")")
+		}
+		fmt.Fprintf(sb, "/-- %s -/\ndef %s : List (String × String) := [%s]\n", doc, name, strings.Join(xs, ", "))
+	}
+	pairs("ackMiddlewareProg", c.c19Steps(c.findFunc("x/ibc/middleware", "IBCMiddleware", "OnAcknowledgementPacket"), "OnAcknowledgementPacket"),
+		"IBCMiddleware.OnAcknowledgementPacket as a program: (step, how its error is treated) in statement order; interpreted by the model")
+	pairs("timeoutMiddlewareProg", c.c19Steps(c.findFunc("x/ibc/middleware", "IBCMiddleware", "OnTimeoutPacket"), "OnTimeoutPacket"),
+		"IBCMiddleware.OnTimeoutPacket as a program")
 }
